@@ -673,3 +673,294 @@ Proof.
       * rewrite Hrun'. now rewrite Ef.
       * split; [exact LIf|]. split; [exact Df|]. now rewrite Hlf, Hl1.
 Qed.
+
+(* ------------------------------------------------------------------ 4. rendering *)
+(* the bytes of Bytes() a code record covers *)
+Definition line_bytes (e : em) (ln : line) : list Z :=
+  slice (Bytes e) (laddr ln - base e) (laddr ln - base e + lcount ln).
+Definition shown_label (ln : line) : lbl :=
+  match lk ln with KComment | KLabel | KIns2L | KIns3L => llabel ln | _ => nolbl end.
+(* what WriteHexTo shows for a record: instruction and data records show exactly their bytes *)
+Definition hex_expected (e : em) (ln : line) : rline :=
+  mkR (lk ln) (match lk ln with KBase => laddr ln | _ => 0 end)
+      (if is_code (lk ln) then line_bytes e ln else []) (shown_label ln) false.
+(* what WriteTextTo shows: the address of the first byte and exactly the bytes (the "undefined label"
+   marker is whatever the maps say: not constrained by this property) *)
+Definition text_expected (e : em) (ln : line) : rline :=
+  mkR (lk ln) (match lk ln with KComment | KLabel => 0 | _ => laddr ln end)
+      (if is_code (lk ln) then line_bytes e ln else []) (shown_label ln)
+      (match lk ln with KIns2L => has (llabel ln) (d8 e) | KIns3L => has (llabel ln) (d16 e) | _ => false end).
+
+Definition RenderOK (e : em) : Prop :=
+  WriteHexTo e = (map (hex_expected e) (lines e), false) /\        (* total; record by record *)
+  WriteTextTo e = (map (text_expected e) (lines e), false) /\
+  concat (map (line_bytes e) (codelines e)) = Bytes e /\           (* the hex bytes, in order, are Bytes() *)
+  code_tile (base e) (codelines e) = Some (base e + n e).          (* each record starts where the last ended *)
+
+Lemma render_loop_map : forall (f : line -> option rline) (g : line -> rline) ls,
+  (forall ln, In ln ls -> f ln = Some (g ln)) -> render_loop f ls = (map g ls, false).
+Proof.
+  intros f g ls. induction ls as [|ln r IH]; intros H; [reflexivity|]. cbn [render_loop map].
+  rewrite (H ln (or_introl eq_refl)). rewrite IH by (intros x Hx; apply H; now right). reflexivity.
+Qed.
+
+Lemma x06_small : forall a, 0 <= a < B24 -> x06 a = a.
+Proof. intros a H. unfold x06. apply Z.mod_small. exact H. Qed.
+
+Lemma code_slice_ok : forall e la cnt, bufok e -> 0 <= base e -> base e + n e <= B24 ->
+  base e <= la -> 0 <= cnt -> la + cnt <= base e + n e ->
+  code_slice e la cnt = Some (slice (Bytes e) (la - base e) (la - base e + cnt)).
+Proof.
+  intros e la cnt Hb Hb0 Htop Hla Hc Hend. destruct (bufok_code _ Hb) as [Hbuf Hn].
+  pose proof (zlen_nonneg _ (code e)). unfold code_slice.
+  rewrite (w32_small (la - base e)) by (unfold B32, B24 in *; lia).
+  rewrite (w32_small (la - base e + cnt)) by (unfold B32, B24 in *; lia).
+  destruct ((la - base e <=? la - base e + cnt) && (la - base e + cnt <=? zlen (code e))) eqn:E.
+  - f_equal. unfold Bytes. symmetry. apply slice_ztake; lia.
+  - apply andb_false_iff in E. destruct E as [E|E]; apply Z.leb_gt in E; lia.
+Qed.
+
+Lemma render_line_ok : forall e ln, bufok e -> 0 <= base e -> base e + n e <= B24 -> line_ok e ln ->
+  hex_line e ln = Some (hex_expected e ln) /\ text_line e ln = Some (text_expected e ln).
+Proof.
+  intros e ln Hb Hb0 Htop Hok. destruct (bufok_code _ Hb) as [Hbuf Hn].
+  unfold hex_line, text_line, hex_expected, text_expected, shown_label, line_bytes, line_ok in *.
+  destruct (lk ln) eqn:Ek; cbn [is_code];
+    try (destruct Hok as (H1 & H2 & H3); cbn [kind_len] in H3;
+         rewrite (code_slice_ok e (laddr ln) _ Hb Hb0 Htop H1) by lia; cbn [option_map];
+         rewrite x06_small by (unfold B24 in *; lia); rewrite H3; split; reflexivity).
+  - rewrite x06_small by exact Hok. split; reflexivity.
+  - destruct Hok as (H1 & H2 & H3 & H4 & H5).
+    rewrite (w32_small (lcount ln)) by (unfold B32, B24 in *; lia).
+    rewrite (code_slice_ok e (laddr ln) (lcount ln) Hb Hb0 Htop H1) by lia. cbn [option_map].
+    rewrite x06_small by (unfold B24 in *; lia). split; [reflexivity|].
+    do 2 f_equal. rewrite <- H5. unfold Bytes. symmetry. apply slice_ztake; lia.
+  - split; reflexivity.
+  - split; reflexivity.
+Qed.
+
+Lemma tile_concat : forall ls pc pend (img : list Z) b,
+  code_tile pc ls = Some pend -> b <= pc -> (forall ln, In ln ls -> 0 <= lcount ln) ->
+  concat (map (fun ln => slice img (laddr ln - b) (laddr ln - b + lcount ln)) ls) = slice img (pc - b) (pend - b) /\
+  pc <= pend.
+Proof.
+  induction ls as [|ln r IH]; intros pc pend img b Ht Hb Hc.
+  - simpl in Ht. inversion Ht; subst. simpl. split; [|lia]. symmetry. apply slice_empty. lia.
+  - simpl in Ht. destruct (laddr ln =? pc) eqn:E; [|discriminate]. apply Z.eqb_eq in E.
+    pose proof (Hc ln (or_introl eq_refl)) as Hc0.
+    destruct (IH (pc + lcount ln) pend img b Ht) as [IH1 IH2]; [lia|intros x Hx; apply Hc; now right|].
+    cbn [map concat]. rewrite IH1, E. split; [|lia].
+    replace (pc + lcount ln - b) with (pc - b + lcount ln) by lia. apply slice_adj; lia.
+Qed.
+
+Lemma codelines_count : forall e ln, Forall (line_ok e) (lines e) -> In ln (codelines e) -> 0 <= lcount ln.
+Proof.
+  intros e ln Ok Hi. unfold codelines in Hi. apply filter_In in Hi. destruct Hi as [Hi Hc].
+  rewrite Forall_forall in Ok. specialize (Ok ln Hi). unfold line_ok in Ok.
+  destruct (lk ln); try discriminate; try (destruct Ok as (_ & _ & Ok); rewrite Ok; cbn; lia).
+  destruct Ok as (_ & Ok & _). lia.
+Qed.
+
+Lemma LInv_render : forall e, LInv e -> bufok e -> 0 <= base e -> base e + n e <= B24 -> RenderOK e.
+Proof.
+  intros e [G La Ok Ti] Hb Hb0 Htop. destruct (bufok_code _ Hb) as [Hbuf Hn].
+  assert (Hr : forall ln, In ln (lines e) ->
+     hex_line e ln = Some (hex_expected e ln) /\ text_line e ln = Some (text_expected e ln)).
+  { intros ln Hi. apply render_line_ok; try assumption. rewrite Forall_forall in Ok. now apply Ok. }
+  unfold RenderOK, WriteHexTo, WriteTextTo. split; [|split; [|split]].
+  - apply render_loop_map. intros ln Hi. apply (Hr ln Hi).
+  - apply render_loop_map. intros ln Hi. apply (Hr ln Hi).
+  - destruct (tile_concat (codelines e) (base e) (base e + n e) (Bytes e) (base e) Ti) as [Hc _]; [lia| |].
+    { intros ln Hi. now apply (codelines_count e). }
+    unfold line_bytes. rewrite Hc. replace (base e - base e) with 0 by lia.
+    replace (base e + n e - base e) with (n e) by lia.
+    assert (Hz : zlen (Bytes e) = n e).
+    { unfold Bytes. pose proof (zlen_nonneg _ (code e)).
+      assert (0 <= n e). { destruct (tile_concat (codelines e) (base e) (base e + n e) [] (base e) Ti); try lia.
+                           intros ln Hi. now apply (codelines_count e). }
+      rewrite zlen_ztake by lia. lia. }
+    rewrite <- Hz. apply slice_full.
+  - exact Ti.
+Qed.
+
+(* ---- Finalize keeps the listing invariant: it only rewrites operand bytes, none inside a data record *)
+Lemma slice_ext_znth : forall (l1 l2 : list Z) x y, zlen l1 = zlen l2 -> 0 <= x -> y <= zlen l1 ->
+  (forall p, x <= p < y -> znth l1 p = znth l2 p) -> slice l1 x y = slice l2 x y.
+Proof.
+  intros l1 l2 x y Hz Hx Hy Hp. destruct (Z_le_gt_dec y x) as [Hle|Hgt].
+  { now rewrite !slice_empty by lia. }
+  apply (nth_ext _ _ 0 0).
+  - assert (E1 : zlen (slice l1 x y) = y - x) by (apply zlen_slice; lia).
+    assert (E2 : zlen (slice l2 x y) = y - x) by (apply zlen_slice; lia).
+    unfold zlen in E1, E2. lia.
+  - intros k Hk.
+    assert (E1 : zlen (slice l1 x y) = y - x) by (apply zlen_slice; lia).
+    assert (Hk' : Z.of_nat k < y - x) by (unfold zlen in E1; lia).
+    assert (Hn : forall l : list Z, nth k l 0 = znth l (Z.of_nat k)).
+    { intros l. unfold znth. destruct (Z.of_nat k <? 0) eqn:E; [apply Z.ltb_lt in E; lia|]. now rewrite Nat2Z.id. }
+    rewrite !Hn. rewrite !znth_slice by lia. apply Hp. lia.
+Qed.
+
+Lemma LInv_finalize : forall e e' res, LInv e -> DBC e -> bufok e -> 0 <= base e ->
+  finalize_post e e' res -> LInv e' /\ lines e' = lines e /\ pending e' = pending e.
+Proof.
+  intros e e' res [G La Ok Ti] D Hb Hb0 (F & Hb' & Hz & Hfr & _).
+  destruct F as (Ff & Fg & Fn & Fl & Fb & Fbs & Fa & Flab).
+  destruct (bufok_code _ Hb) as [Hbuf Hn].
+  split; [|split; [exact Fl|unfold pending; now rewrite Fbs, Fa]].
+  constructor.
+  - congruence.
+  - rewrite Fbs, Fn. exact La.
+  - rewrite Fl. rewrite Forall_forall in Ok |- *. intros ln Hi. specialize (Ok ln Hi).
+    unfold line_ok in *. rewrite Fb, Fn. destruct (lk ln) eqn:Ek; try exact Ok.
+    destruct Ok as (H1 & H2 & H3 & H4 & H5). repeat split; try assumption.
+    rewrite <- H5. apply slice_ext_znth; try lia.
+    intros p Hp. apply Hfr. intros Hop. destruct (D ln Hi Ek p Hop); lia.
+  - unfold codelines in *. rewrite Fl, Fb, Fn. exact Ti.
+Qed.
+
+(* ================================================================== the C15 theorems *)
+Lemma LInv_init : forall b, LInv (new_em (Some b) true) /\ DBC (new_em (Some b) true).
+Proof.
+  intros b. split.
+  - constructor; cbn; try reflexivity; try discriminate; constructor.
+  - intros ln [].
+Qed.
+
+Lemma in_one_bank_B24 : forall s, in_one_bank s -> a_pc s <= B24.
+Proof.
+  intros s [[H0 H1] H2]. unfold B24.
+  assert (a_base s / 65536 < 256) by (apply Z.div_lt_upper_bound; lia). nia.
+Qed.
+
+Definition listing_premises (fx : fixes) (ops : list op) (b : list Z) (ef : em) (rl : list bool) : Prop :=
+  hist_ok ops /\ Forall op_ok24 ops /\                      (* base: 24-bit, at most once, before the first emission *)
+  runX fx ops (new_em (Some b) true) = (ef, rl) /\          (* listing generation on, a real target *)
+  data_fit ops rl = true /\                                 (* every data block fitted *)
+  in_one_bank (assemble (accepted ops rl)).                 (* the program lies inside one bank *)
+
+(* BEFORE Finalize.  The records (plus a base record still latched) are the abstract listing of the accepted
+   calls -- labels, comments and base directives at their issue positions, every instruction / data record at
+   base + offset with its own length -- and both renderings are total and show exactly the bytes of Bytes(). *)
+Theorem C15_listing : forall fx ops b ef rl,
+  chunk_own fx = true -> label_flush fx = true -> listing_premises fx ops b ef rl ->
+  lines ef ++ pending ef = spec_lines 0 (accepted ops rl) /\ RenderOK ef /\ LInv ef /\ DBC ef.
+Proof.
+  intros fx ops b ef rl Hown Hfl ((Hok & Hbo) & Hok24 & Hrun & Hfit & Hbank).
+  destruct (LInv_init b) as [LI0 D0].
+  pose proof (in_one_bank_B32 _ Hbank) as [_ Htop].
+  destruct (run_listing ops fx a_init (new_em (Some b) true) false false ef rl) as (LI & D & Hl); try assumption.
+  - apply Rel_init.
+  - apply AInv_init.
+  - discriminate.
+  - unfold B24. cbn. lia.
+  - intros _. repeat split.
+  - intros _. reflexivity.
+  - destruct (C06_history fx ops (Some b) true ef rl (conj Hok Hbo) Hrun Hbank) as [HR HA].
+    assert (Hnn : buf ef <> None).
+    { replace ef with (fst (runX fx ops (new_em (Some b) true))) by now rewrite Hrun. apply runX_buf. discriminate. }
+    pose proof (Rel_WF _ _ HR HA Hnn) as W.
+    split; [exact Hl|]. split; [|split; [exact LI|exact D]].
+    apply LInv_render; [exact LI|apply (wf_buf _ W)|apply (wf_base _ W)|].
+    destruct (Rel_n _ _ HR Hnn) as (Hpc & _). rewrite <- Hpc. now apply in_one_bank_B24.
+Qed.
+
+(* AFTER Finalize, for every pair of visiting orders and whatever the outcome: same records, and both renderings
+   are total and show exactly the bytes Bytes() holds now *)
+Theorem C15_after_finalize : forall fx ops b ef rl o8 o16 e' res,
+  chunk_own fx = true -> label_flush fx = true -> listing_premises fx ops b ef rl ->
+  covers o8 (d8 ef) -> covers o16 (d16 ef) -> Finalize o8 o16 ef = (e', res) ->
+  lines e' ++ pending e' = spec_lines 0 (accepted ops rl) /\ RenderOK e'.
+Proof.
+  intros fx ops b ef rl o8 o16 e' res Hown Hfl Hp C8 C16 Hf.
+  destruct (C15_listing fx ops b ef rl Hown Hfl Hp) as (Hl & _ & LI & D).
+  destruct Hp as (Hh & Hok24 & Hrun & Hfit & Hbank).
+  pose proof (C06_reachable_WF fx ops b true ef rl Hh Hrun Hbank) as W.
+  pose proof (finalize_spec o8 o16 ef e' res W C8 C16 Hf) as Hpost.
+  destruct (LInv_finalize ef e' res LI D (wf_buf _ W) (wf_base _ W) Hpost) as (LI' & El & Ep).
+  split; [now rewrite El, Ep|].
+  destruct Hpost as (F & Hb' & _). destruct F as (_ & _ & Fn & _ & Fb & _).
+  apply LInv_render; [exact LI'|exact Hb'|rewrite Fb; apply (wf_base _ W)|].
+  rewrite Fb, Fn.
+  destruct (C06_history fx ops (Some b) true ef rl Hh Hrun Hbank) as [HR _].
+  destruct (Rel_n _ _ HR) as (Hpc & _).
+  { destruct (wf_buf _ W) as (b0 & E & _). congruence. }
+  rewrite <- Hpc. now apply in_one_bank_B24.
+Qed.
+
+(* the abstract listing tiles: what "carries base + offset of its first byte" means for the records themselves *)
+Theorem C15_addresses : forall fx ops b ef rl,
+  chunk_own fx = true -> label_flush fx = true -> listing_premises fx ops b ef rl ->
+  code_tile (base ef) (filter (fun ln => is_code (lk ln)) (spec_lines 0 (accepted ops rl))) = Some (base ef + Len ef).
+Proof.
+  intros fx ops b ef rl Hown Hfl Hp. destruct (C15_listing fx ops b ef rl Hown Hfl Hp) as (Hl & (_ & _ & _ & Ti) & _).
+  rewrite <- Hl, filter_app, pending_not_code, app_nil_r. exact Ti.
+Qed.
+
+(* ================================================================== refutations for the code as it stands *)
+(* [today] = the model of the pinned tree (Emitter.run).  The same premises, the conclusions fail. *)
+Ltac ok24_tac := repeat constructor; cbn; unfold B24; try lia.
+Ltac premises_tac :=
+  split; [hist_ok_tac|split; [ok24_tac|split; [vm_compute; reflexivity|split; [vm_compute; reflexivity|bank_tac]]]].
+
+Definition w_data20 : list op := [OSetBase 32768; OEmitBytes (ziota 1 20)].
+Definition w_data20_nop : list op := [OSetBase 32768; OEmitBytes (ziota 1 20); OIns E1 [234] nolbl TNone GNone].
+Definition w_label : list op := [OSetBase 32768; OLabel 0%N; OIns E1 [234] nolbl TNone GNone].
+Definition zeros (k : nat) : list Z := repeat 0 k.
+
+(* (1) a data block of more than 16 bytes: every chunk record carries the length of the whole block, so the
+   hex listing over-reads: it panics when the over-read leaves the buffer ... *)
+Theorem C15_refuted_chunks :
+  exists ef rl, listing_premises today w_data20 (zeros 20) ef rl /\ snd (WriteHexTo ef) = true.
+Proof.
+  exists (fst (runX today w_data20 (new_em (Some (zeros 20)) true))), [false; false].
+  split; [premises_tac|vm_compute; reflexivity].
+Qed.
+(* ... and otherwise lists 20 + 20 bytes for the 21 that were emitted (the second record shows 4 data bytes, the
+   following instruction and 15 bytes of untouched target) *)
+Theorem C15_refuted_chunks_repeat :
+  exists ef rl, listing_premises today w_data20_nop (zeros 64) ef rl /\
+    snd (WriteHexTo ef) = false /\
+    concat (map rbytes (filter (fun r => is_code (rk r)) (fst (WriteHexTo ef)))) <> Bytes ef /\
+    zlen (concat (map rbytes (filter (fun r => is_code (rk r)) (fst (WriteHexTo ef))))) = 41 /\ Len ef = 21.
+Proof.
+  exists (fst (runX today w_data20_nop (new_em (Some (zeros 64)) true))), [false; false; false].
+  split; [premises_tac|]. vm_compute. repeat split; try reflexivity. intros H. discriminate.
+Qed.
+(* (2) a Label right after SetBase is listed BEFORE the base line *)
+Theorem C15_refuted_label_base :
+  exists ef rl, listing_premises today w_label (zeros 8) ef rl /\
+    lines ef ++ pending ef <> spec_lines 0 (accepted w_label rl) /\
+    map lk (lines ef) = [KLabel; KBase; KIns1] /\ map lk (spec_lines 0 (accepted w_label rl)) = [KBase; KLabel; KIns1].
+Proof.
+  exists (fst (runX today w_label (new_em (Some (zeros 8)) true))), [false; false; false].
+  split; [premises_tac|]. vm_compute. repeat split; try reflexivity. intros H. discriminate.
+Qed.
+
+(* ================================================================== non-vacuity for the repaired routines *)
+(* the premises are satisfiable by a program with every kind of record: a comment before the base, a label and a
+   comment right after SetBase, data blocks of 40, 16, 1 and 0 bytes, forward / backward references, a jump *)
+Definition ex_listing : list op :=
+  [OComment 7%N; OSetBase 12615680; OLabel 0%N; OComment 8%N; OEmitBytes (ziota 1 40);
+   OIns E2L [128; 255] 1%N TNone GNone; OEmitBytes (ziota 100 16); OIns E3L [76; 255; 255] 0%N TNone GNone;
+   OEmitBytes [9]; OEmitBytes []; OLabel 1%N; OIns E2L [208; 255] 0%N TNone GNone; OLabel 0%N (* refused *);
+   OIns E4 [34; 1; 2; 3] nolbl TNone GNone].
+Definition ex_ef : em := fst (runX repaired ex_listing (new_em (Some (zeros 80)) true)).
+Definition ex_rl : list bool := [false; false; false; false; false; false; false; false; false; false; false; false; true; false].
+Example ex_listing_premises : listing_premises repaired ex_listing (zeros 80) ex_ef ex_rl.
+Proof. unfold ex_ef, ex_rl. premises_tac. Qed.
+Example ex_listing_shape :
+  map lk (lines ex_ef) =
+    [KComment; KBase; KLabel; KComment; KDB; KDB; KDB; KIns2L; KDB; KIns3L; KDB; KLabel; KIns2L; KIns4] /\
+  map lcount (codelines ex_ef) = [16; 16; 8; 2; 16; 3; 1; 2; 4] /\ Len ex_ef = 68 /\
+  snd (WriteHexTo ex_ef) = false /\ snd (WriteTextTo ex_ef) = false /\
+  (let e' := fst (Finalize (keys (d8 ex_ef)) (keys (d16 ex_ef)) ex_ef) in
+   snd (Finalize (keys (d8 ex_ef)) (keys (d16 ex_ef)) ex_ef) = FOk /\
+   concat (map rbytes (filter (fun r => is_code (rk r)) (fst (WriteHexTo e')))) = Bytes e' /\
+   Bytes e' <> Bytes ex_ef).
+Proof. vm_compute. repeat split; try reflexivity. intros H. discriminate. Qed.
+(* the witnesses of the two defects, on the repaired routines *)
+Example ex_repaired_witnesses :
+  snd (WriteHexTo (fst (runX repaired w_data20 (new_em (Some (zeros 20)) true)))) = false /\
+  map lk (lines (fst (runX repaired w_label (new_em (Some (zeros 8)) true)))) = [KBase; KLabel; KIns1].
+Proof. vm_compute. split; reflexivity. Qed.
